@@ -615,6 +615,34 @@ static void run_pre(void) {
   vn_log_reset();
 }
 
+/* the constants the Coq model assumes, as the headers define them today */
+static void run_const(void) {
+#define K(n, v) printf("%s=%d ", n, (int)(v))
+  K("AGAIN", GNUTLS_E_AGAIN); K("INTERRUPTED", GNUTLS_E_INTERRUPTED);
+  K("INSUFFICIENT_CREDENTIALS", GNUTLS_E_INSUFFICIENT_CREDENTIALS);
+  K("FATAL_ALERT_RECEIVED", GNUTLS_E_FATAL_ALERT_RECEIVED);
+  K("UNEXPECTED_HANDSHAKE_PACKET", GNUTLS_E_UNEXPECTED_HANDSHAKE_PACKET);
+  K("UNEXPECTED_PACKET", GNUTLS_E_UNEXPECTED_PACKET);
+  K("WARNING_ALERT_RECEIVED", GNUTLS_E_WARNING_ALERT_RECEIVED);
+  K("NO_CERTIFICATE_FOUND", GNUTLS_E_NO_CERTIFICATE_FOUND);
+  K("CERTIFICATE_REQUIRED", GNUTLS_E_CERTIFICATE_REQUIRED);
+  K("DECRYPTION_FAILED", GNUTLS_E_DECRYPTION_FAILED); K("CERTIFICATE_ERROR", GNUTLS_E_CERTIFICATE_ERROR);
+  K("UNKNOWN_CIPHER_SUITE", GNUTLS_E_UNKNOWN_CIPHER_SUITE); K("NO_CIPHER_SUITES", GNUTLS_E_NO_CIPHER_SUITES);
+  K("INVALID_SESSION", GNUTLS_E_INVALID_SESSION); K("SESSION_EOF", GNUTLS_E_SESSION_EOF);
+  K("PREMATURE_TERMINATION", GNUTLS_E_PREMATURE_TERMINATION); K("TIMEDOUT", GNUTLS_E_TIMEDOUT);
+  K("PULL_ERROR", GNUTLS_E_PULL_ERROR); K("PUSH_ERROR", GNUTLS_E_PUSH_ERROR);
+  K("EV_DTLS_CLOSED", COAP_EVENT_DTLS_CLOSED); K("EV_DTLS_CONNECTED", COAP_EVENT_DTLS_CONNECTED);
+  K("EV_DTLS_ERROR", COAP_EVENT_DTLS_ERROR); K("EV_SESSION_CONNECTED", COAP_EVENT_SESSION_CONNECTED);
+  K("NACK_TOO_MANY_RETRIES", COAP_NACK_TOO_MANY_RETRIES); K("NACK_NOT_DELIVERABLE", COAP_NACK_NOT_DELIVERABLE);
+  K("NACK_TLS_FAILED", COAP_NACK_TLS_FAILED);
+  printf("NACK_TLS_LAYER_FAILED=%d\n", (int)COAP_NACK_TLS_LAYER_FAILED);
+  /* further facts the model and the trace parser rely on */
+  printf("STATES=%d,%d,%d,%d,%d MAX_RETRANSMIT=%d NSTART=%d HINT_LENGTH=%d\n", COAP_SESSION_STATE_NONE,
+         COAP_SESSION_STATE_CONNECTING, COAP_SESSION_STATE_HANDSHAKE, COAP_SESSION_STATE_CSM,
+         COAP_SESSION_STATE_ESTABLISHED, (int)COAP_DEFAULT_MAX_RETRANSMIT, (int)COAP_DEFAULT_NSTART,
+         (int)COAP_DTLS_HINT_LENGTH);
+}
+
 int main(void) {
   FILE *in = tg_stdin_dup();
   coap_startup();
@@ -630,6 +658,8 @@ int main(void) {
       run_case();
     } else if (strcmp(vtok[0], "c19pre") == 0) {
       run_pre();
+    } else if (strcmp(vtok[0], "c19const") == 0) {
+      run_const();
     } else
       printf("ERROR unknown case\n");
     fflush(stdout);
